@@ -5,8 +5,13 @@ package analyzer
 // Contracts for the verification machinery under /verif (comment-only file;
 // compiled only with -tags verif, contains no executable code).
 
+// ---- C04: the process-wide analyzer cache is only touched under its mutex
+//@ guarded globalGocritic by globalGocriticMu
+//@ guarded globalInitErrorReported by globalGocriticMu
+
 //@ func prepareGocritic
 //@   prop C19 C04
+//@   call newGocritic requires @shared-parameters-written-under-the-lock {C04} $held(addr(globalGocriticMu))
 //@   assigns globalGocritic, globalInitErrorReported, any(linter.CheckerParam.Value)
 //@   requires @registry-wf forall k int :: (0 <= k && k < len(registeredCheckers)) ==> wfInfo(registeredCheckers[k])
 //@   requires @cache-wf globalGocritic != nil ==> (forall m int :: (0 <= m && m < len(globalGocritic.infoList)) ==> globalGocritic.infoList[m] != nil)
